@@ -70,6 +70,11 @@ op_st = st.one_of(
               st.sampled_from(['mutate', 'fresh']), st.integers(0, 9)).map(lambda t: ['upd', t[0], t[1], t[2], t[3]]),
     query_st.map(lambda q: ['query', q]),
     query_st.map(lambda q: ['query', q]),
+    # a query for a service, answered from the outgoing queues up to 1.2 s later, and an update of that service in between: what
+    # is transmitted after the update must not carry the records the update replaced
+    st.tuples(st.integers(0, 5), st.sampled_from(['port', 'text', 'addrs']), st.integers(0, 9),
+              st.sampled_from([0, 1, 19, 30, 100, 400, 900]), st.sampled_from(['ptr', 'srv', 'txt', 'addr', 'any']),
+              st.booleans()).map(lambda t: ['updrace', t[0], t[1], t[2], t[3], t[4], t[5]]),
 )
 
 
@@ -135,6 +140,9 @@ class Exec:
         if True:
             kind = op[0]
             k = op[1] % len(pool) if kind != 'query' else 0
+            if kind == 'updrace':
+                await self.update_race(w, host, k, op)
+                return
             if kind != 'query' and self.stats['queries']:
                 # answers queued for earlier queries (aggregation / 1 s protection, <= 1.2 s) must not race registry
                 # changes here: that interleaving is C08's subject, not C03's
@@ -197,6 +205,63 @@ class Exec:
             elif kind == 'query':
                 await self.query(w, op[1])
             await asyncio.sleep(0.05)
+
+    async def update_race(self, w: sim.World, host: sim.Host, k: int, op: List[Any]) -> None:
+        if k not in self.infos:
+            return
+        _, _, what, n, gap, shape, sighting = op
+        await asyncio.sleep(1.7)       # nothing else is queued any more
+        d_old = dict(self.descs[k])
+        d = dict(d_old)
+        if what == 'port':
+            d['port'] = [81, 8081, 1][n % 3] if d['port'] not in (81, 8081, 1) else 4242
+        elif what == 'text':
+            d['props'] = TEXTS[n % len(TEXTS)] if TEXTS[n % len(TEXTS)] != d['props'] else '0171'
+        else:
+            d['addrs'] = ADDRSETS[n % len(ADDRSETS)]
+        old = rp.Svc(d_old)
+        if sighting:
+            # the host has just seen its own records multicast (a peer repeating them): its answers to the query below are then
+            # held back in the one-second protection queue instead of the 20-120 ms aggregation queue
+            rrs = [rp.wire_rr_of_ident(i, t, flush=i[0] != 'PTR') for i, t in old.records_with_ttl().items() if i[0] != 'NSEC']
+            w.net.inject(host, wire.encode({'id': 0, 'flags': 0x8400, 'qd': [], 'an': rrs, 'ns': [], 'ar': []}), ('10.0.0.200', 5353))
+            await asyncio.sleep(0.3)
+        qs = {'ptr': [(d_old['type'], 12)], 'srv': [(d_old['name'], 33), (d_old['type'], 12)], 'txt': [(d_old['name'], 16), (d_old['type'], 12)],
+              'addr': [(d_old['server'], 1), (d_old['server'], 28), (d_old['type'], 12)], 'any': [(d_old['name'], 255), (d_old['type'], 12)]}[shape]
+        w.net.inject(host, rp.build_query([(nm, t, False) for nm, t in qs], [], qid=0), (CLIENT_IP, 5353))
+        await asyncio.sleep(gap / 1000.0)
+        info = sim.make_service_info(d)
+        queued = len(host.zc.out_queue.queue) + len(host.zc.out_delay_queue.queue)
+        task = await host.azc.async_update_service(info)
+        w.gseq += 1
+        g_upd, t_upd = w.gseq, w.now_ms
+        await task
+        self.infos[k] = info
+        self.descs[k] = d
+        self.model.register(d)
+        self.changed = True
+        await asyncio.sleep(1.5)
+        current = set()
+        for sv in self.model.services.values():
+            current |= set(sv.records_with_ttl())
+        replaced = {i for i in old.records_with_ttl() if i[0] != 'NSEC'} - current
+        self.stats['update_races'] = self.stats.get('update_races', 0) + 1
+        if queued and replaced:
+            self.stats['update_with_answers_queued'] = self.stats.get('update_with_answers_queued', 0) + 1
+            self.nontrivial = True
+        for e in w.net.trace:
+            if e['host'] != 'R' or e['g'] <= g_upd:
+                continue
+            m = sim.decode_trace_entry(e)
+            if m is None or not m['flags'] & 0x8000:
+                continue
+            for r in m['an'] + m['ar']:
+                ident = rp.ident_of_wire_rr(r)
+                if ident in replaced and r['ttl'] > 0:
+                    raise Violation('a reply transmitted after async_update_service had replaced a record still carries the replaced record',
+                                    {'service': d['name'], 'changed': what, 'replaced_record': ident, 'ttl': r['ttl'],
+                                     'query_to_update_ms': gap, 'update_to_reply_ms': round(e['t'] * 1000 - t_upd, 2), 'dst': e['dst'],
+                                     'after_sighting': sighting}, tag='reply-after-update-carries-replaced-record')
 
     def _qname(self, q: List[Any]) -> Tuple[str, int]:
         tk, k, sp, qtype = q
